@@ -1242,7 +1242,7 @@ async fn conn_op(
             let mut cancelled = 0u64;
             let mut last = json!("budget");
             // give up after `idle_ms` without a new stream (other acceptors may have taken them all)
-            let idle = Duration::from_millis(u(&step, "idle_ms", 1500));
+            let idle = Duration::from_millis(u(&step, "idle_ms", 2500));
             // `pure`: every accept is one uninterrupted await (never re-polled by a timeout), the
             // way an application task blocked in accept behaves; the caller takes exactly `n`
             let pure = step.get("pure").and_then(|v| v.as_bool()).unwrap_or(false);
